@@ -34,8 +34,10 @@ def lim_str(l):
 
 
 def _ftypes():
-    from ak.ppobj import PPEnumFieldType
-    return {'e': PPEnumFieldType({0: 'Zero', 1: ('One', 'name_good'), 10: 'Ten'})}
+    from ak.ppobj import PPEnumFieldType, FieldType
+    # field c(x): a field type with its own width limits (4-10), which apply only where a column description gives none -
+    # every column here gives its range explicitly (1-999, the limits of the general field type, among them)
+    return {'e': PPEnumFieldType({0: 'Zero', 1: ('One', 'name_good'), 10: 'Ten'}), 'c(x)': FieldType(min_width=4, max_width=10)}
 
 
 def _mk(fmt, nrec, limits=None):
